@@ -4,7 +4,7 @@
    All machine arithmetic is on Z with the 64-bit wrap made explicit.  NO proofs in this file (it must extract even
    when a proof breaks).
 
-   The model is the behaviour AFTER the three proposed repairs fixes/C10-*.patch:
+   The model is the behaviour AFTER the repairs fixes/C10-*.patch (round 3 adds C10-flatten-empty-section-offset: `settle`):
      - flatten pass 2 never extends an EMPTY section (DESIGN 7.26)          [flatten-empty-prev]
      - new_section zero-fills the name field (DESIGN 7.18)                  [section-name-zero]
      - code_size reports SIZE_MAX also when aligning wraps around 2^64      [code-size-align-overflow]
@@ -167,8 +167,29 @@ Fixpoint extend_pinned (l : list section) : list section :=
     end
   end.
 
-Definition flatten (h : holder) : err * holder :=
+(* the state after the forward loop of pass 2 *)
+Definition flatten_mid (h : holder) : err * holder :=
   if pass1 0 h then (EOk, fst (extend (assign 0 h))) else (ETooLarge, h).
+
+(* the running offset at the end of the forward loop *)
+Fixpoint run_end (off : Z) (l : list section) : Z :=
+  match l with [] => off | s :: t => run_end (soff s + real_size s) t end.
+
+(* pass 2c (fixes/C10-flatten-empty-section-offset): walking backwards, an EMPTY section is placed where the next non-empty
+   section starts, or at the end of the code if none follows — the place another flatten() would move it to.
+   Second component: the offset handed to the empty sections on the left. *)
+Fixpoint settle (l : list section) (e : Z) : list section * Z :=
+  match l with
+  | [] => ([], e)
+  | s :: t =>
+    let (t', nxt) := settle t e in
+    if real_size s =? 0 then (set_off s nxt :: t', nxt) else (s :: t', soff s)
+  end.
+
+Definition flatten (h : holder) : err * holder :=
+  if pass1 0 h
+  then let a := assign 0 h in (EOk, fst (settle (fst (extend a)) (run_end 0 a)))
+  else (ETooLarge, h).
 
 Definition flatten_pinned (h : holder) : err * holder :=
   if pass1 0 h then (EOk, extend_pinned (assign 0 h)) else (ETooLarge, h).
